@@ -149,6 +149,7 @@ func (c *Cluster) killAt(n *SimNode, kind, phase string, torn float64) {
 
 // finishCrash is called once the stack of the killed node has been unwound.
 func (c *Cluster) finishCrash(n *SimNode) {
+	c.closeWire(n)
 	if n.crashed {
 		return
 	}
